@@ -625,6 +625,31 @@ func walkSinglePass(c *Ctx) {
 				}
 			}
 		}
+		// a slice field handed to a helper that the reference tree does not know (a loop moved out)
+		for _, b := range fn.Blocks {
+			for _, ins := range b.Instrs {
+				call, ok := ins.(*ssa.Call)
+				if !ok {
+					continue
+				}
+				k := staticCallee(&call.Call)
+				if k == nil || !c.P.isNewFunc(k) {
+					continue
+				}
+				for _, a := range call.Call.Args {
+					if _, isSl := a.Type().Underlying().(*types.Slice); !isSl {
+						continue
+					}
+					if u, ok := a.(*ssa.UnOp); ok && u.Op == token.MUL {
+						if fa, ok := u.X.(*ssa.FieldAddr); ok {
+							if fv := fieldVarOf(fa.X.Type(), fa.Field); fv != nil {
+								perField[fv.Name()] = append(perField[fv.Name()], call.Pos())
+							}
+						}
+					}
+				}
+			}
+		}
 		var names []string
 		for k := range perField {
 			names = append(names, k)
@@ -1105,7 +1130,8 @@ func c20ExprVerbatim(c *Ctx) {
 			c.CheckerFail("exprmap.verbatim", "anchor "+name+" does not resolve")
 			continue
 		}
-		for _, b := range fn.Blocks {
+		for _, xf := range c.P.expandedFuncs(fn) {
+		for _, b := range xf.Blocks {
 			for _, ins := range b.Instrs {
 				st, ok := ins.(*ssa.Store)
 				if !ok || !isNamed(st.Val.Type(), modPath, "Expression") {
@@ -1152,6 +1178,7 @@ func c20ExprVerbatim(c *Ctx) {
 					"the static view hands out an expression that is the "+bad+", not the node's own child expression: evaluating the pair's key or value no longer gives what evaluating the whole constructor gives")
 			}
 		}
+		}
 	}
 	c.Floor("exprmap.verbatim stores", n, 3, "Key, Value and list elements")
 }
@@ -1159,6 +1186,7 @@ func c20ExprVerbatim(c *Ctx) {
 // ---- C08/C18 unknownbody.typed -------------------------------------------------------------------------
 
 func unknownBodyTyped(c *Ctx) {
+	typedDone := map[*ssa.Function]bool{}
 	c.Rule("unknownbody.typed: in the decode methods of the hcldec block specs, an UnknownBody test made inside a loop over the content's blocks lies on the edge where the block's Type equals the spec's TypeName: an unknown body of ANOTHER block type in the same content says nothing about this spec's blocks")
 	n := 0
 	for _, fn := range c.P.pkgFuncs("hcldec") {
@@ -1190,7 +1218,12 @@ func unknownBodyTyped(c *Ctx) {
 			}
 			return false
 		}
-		for _, b := range fn.Blocks {
+		for _, xf := range c.P.expandedFuncs(fn) {
+		if typedDone[xf] {
+			continue
+		}
+		typedDone[xf] = true
+		for _, b := range xf.Blocks {
 			for _, ins := range b.Instrs {
 				if !isTest(ins) || !inLoop(b) {
 					continue
@@ -1212,7 +1245,14 @@ func unknownBodyTyped(c *Ctx) {
 						}
 						return false
 					}
-					if !((has(bo.X, "Type") && has(bo.Y, "TypeName")) || (has(bo.Y, "Type") && has(bo.X, "TypeName"))) {
+					isName := func(v ssa.Value) bool {
+						if has(v, "TypeName") {
+							return true
+						}
+						_, isParam := v.(*ssa.Parameter) // a helper that is handed the spec's type name
+						return isParam
+					}
+					if !((has(bo.X, "Type") && isName(bo.Y)) || (has(bo.Y, "Type") && isName(bo.X))) {
 						continue
 					}
 					if (bo.Op == token.NEQ && !ce.onTrue) || (bo.Op == token.EQL && ce.onTrue) {
@@ -1223,8 +1263,9 @@ func unknownBodyTyped(c *Ctx) {
 					"the UnknownBody test is made for every block of the content, whatever its type: a dynamic block of another type with an unknown for_each makes this spec's (fully known) blocks decode as unknown")
 			}
 		}
+		}
 	}
-	c.Floor("unknownbody.typed tests in loops", n, 4, "list, tuple, set, map and object block specs")
+	c.Floor("unknownbody.typed tests in loops", n, 4, "list, tuple, set, map and object block specs (a shared helper may serve two)")
 }
 
 // ---- C06 bodymarks.unknown -----------------------------------------------------------------------------
@@ -1232,48 +1273,69 @@ func unknownBodyTyped(c *Ctx) {
 func init() { registerExtra("C06", c06BodyMarksUnknown) }
 
 func c06BodyMarksUnknown(c *Ctx) {
-	c.Rule("bodymarks.unknown: in every hcldec block spec, the value returned once a child body has been found unknown (the true edge of u.Unknown()) has passed prepareBodyVal with a body: the unknown body generated for a dynamic block carries the marks of its for_each value, and an unknown for_each that is marked must give a marked unknown result, as a known one gives marked blocks")
+	c.Rule("bodymarks.unknown: in every hcldec block spec that decodes child block bodies (the decode method together with its closures and the helpers moved out of it), every unknown value it makes (cty.UnknownVal(…)) is handed to prepareBodyVal and used in no other way: the unknown body generated for a dynamic block carries the marks of its for_each value, and an unknown for_each that is marked must give a marked unknown result, as a known one gives marked blocks")
 	prep := c.P.LookupFunc("hcldec", "prepareBodyVal")
-	if prep == nil {
-		c.CheckerFail("bodymarks.unknown", "anchor hcldec.prepareBodyVal does not resolve")
+	dec := c.P.LookupFunc("hcldec", "decode")
+	if prep == nil || dec == nil {
+		c.CheckerFail("bodymarks.unknown", "anchor hcldec.prepareBodyVal / decode does not resolve")
 		return
 	}
 	n := 0
+	done := map[*ssa.Function]bool{}
 	for _, fn := range c.P.pkgFuncs("hcldec") {
 		if fn.Name() != "decode" || fn.Signature.Recv() == nil || len(fn.Blocks) == 0 {
 			continue
 		}
-		for _, b := range fn.Blocks {
-			iff, ok := lastIf(b)
-			if !ok {
-				continue
-			}
-			call, ok := iff.Cond.(*ssa.Call)
-			if !ok || !call.Call.IsInvoke() || call.Call.Method.Name() != "Unknown" || !isNamed(call.Call.Value.Type(), modPath+"/hcldec", "UnknownBody") {
-				continue
-			}
-			t := b.Succs[0]
-			for _, rb := range fn.Blocks {
-				r, ok := rb.Instrs[len(rb.Instrs)-1].(*ssa.Return)
-				if !ok || !edgeDominates(b, t, rb) || len(r.Results) == 0 {
-					continue
-				}
-				n++
-				c.Sites++
-				c.Fn(FuncName(fn))
-				marked := true
-				for _, o := range originsOf(lookThrough(r.Results[0]), nil) {
-					cl, isCall := o.(*ssa.Call)
-					if !isCall || staticCallee(&cl.Call) != prep {
-						marked = false
+		xs := c.P.expandedFuncs(fn)
+		decodesChild := false
+		for _, xf := range xs {
+			for _, b := range xf.Blocks {
+				for _, ins := range b.Instrs {
+					if call, ok := ins.(*ssa.Call); ok && call.Call.StaticCallee() == dec && strings.HasSuffix(pathName(call.Call.Args[0]), ".Body") {
+						decodesChild = true
 					}
 				}
-				c.Check(marked, "bodymarks.unknown", FuncName(fn)+":return[unknown body]", r.Pos(), "passes prepareBodyVal",
-					"the unknown value returned for an unknown child body does not pass prepareBodyVal: the marks of a dynamic block's (unknown) for_each value are dropped, although a known for_each of the same sensitivity gives marked blocks")
+			}
+		}
+		if !decodesChild {
+			continue
+		}
+		for _, xf := range xs {
+			if done[xf] {
+				continue
+			}
+			done[xf] = true
+			for _, b := range xf.Blocks {
+				for _, ins := range b.Instrs {
+					call, ok := ins.(*ssa.Call)
+					if !ok {
+						continue
+					}
+					k := call.Call.StaticCallee()
+					if k == nil || fnPkg(k) == nil || fnPkg(k).Path() != ctyPath || k.Name() != "UnknownVal" {
+						continue
+					}
+					n++
+					c.Sites++
+					c.Fn(FuncName(xf))
+					marked, uses := true, 0
+					for _, r := range *call.Referrers() {
+						if _, isDbg := r.(*ssa.DebugRef); isDbg {
+							continue
+						}
+						uses++
+						pc, isCall := r.(*ssa.Call)
+						if !isCall || staticCallee(&pc.Call) != prep || pc.Call.Args[0] != ssa.Value(call) {
+							marked = false
+						}
+					}
+					c.Check(marked && uses > 0, "bodymarks.unknown", FuncName(fn)+":return[unknown body]", call.Pos(), "passes prepareBodyVal",
+						"the unknown value returned for an unknown child body does not pass prepareBodyVal: the marks of a dynamic block's (unknown) for_each value are dropped, although a known for_each of the same sensitivity gives marked blocks")
+				}
 			}
 		}
 	}
-	c.Floor("bodymarks.unknown returns", n, 6, "BlockSpec, BlockListSpec, BlockTupleSpec, BlockSetSpec, BlockMapSpec, BlockObjectSpec")
+	c.Floor("bodymarks.unknown returns", n, 5, "BlockSpec, BlockListSpec, BlockTupleSpec, BlockSetSpec, BlockMapSpec, BlockObjectSpec (a shared helper may serve two)")
 }
 
 // ---- C07 dyn.justattrs ---------------------------------------------------------------------------------
